@@ -42,7 +42,7 @@ CaseResult runC10(const Case &c, RunCtx &ctx) {
                 const std::string path = in.path("c10.c3d");
                 in.o().write(path);
                 ezc3d::c3d back(path);
-                ContentOpts co; co.channelNames = false;
+                ContentOpts co; co.channelNames = false; co.trimA = true; co.trimB = false;   // the loaded object must hold the trimmed strings
                 std::string d = diffContent(a, takeSnap(back), co);
                 if (!d.empty()) r.fail("object does not save/reload to the same content after refused calls: " + d);
                 r.tags.insert("saved-and-reloaded");
